@@ -292,6 +292,8 @@ def gen_net_acts(R, nseg, cfg, protect_first=False):
                     acts.append([i, "dup", R.range(0, 4)])
                 elif kind in ("dup_merge", "dup_half"):
                     acts.append([i, kind, R.range(0, 4)])
+                elif kind == "keepalive":
+                    acts.append([i, "keepalive"])
                 elif kind == "dup_rto":
                     acts.append([i, "dup_rto"])
                 elif kind == "dup_late":
